@@ -104,11 +104,14 @@ def run(ctx):
         sig = (len(d["code"]), len(d["funcs"]), tuple(sorted(collections.Counter(c[0] for c in d["code"]).items())))
         if sig not in shapes and len(d["funcs"]) > 30:
             shapes.add(sig)
-        rb = ref_checks(d, names)
-        if rb:
-            a, n, what = rb[0]
-            ctx.violation("refs:%s:%s" % (pid, n), "module of %s: %s at address %d" % (pid, what, a),
-                          {"program": pid, "addr": a, "opcode": n, "what": what})
+        refs = v.get("refs", "")
+        if not refs.startswith("REFS ok"):
+            a = refs.split("addr=")[1].split()[0] if "addr=" in refs else "?"
+            opn = refs.split("op=")[1].split()[0] if "op=" in refs else "?"
+            opname = names[int(opn)] if opn.isdigit() and int(opn) < len(names) else opn
+            ctx.violation("refs:%s:%s" % (pid, opname), "module of %s: reference check fails at address %s (%s): %s" % (
+                pid, a, opname, refs), {"program": pid, "refs": refs,
+                "meaning": "string index outside the table / unknown builtin / free-variable index outside the environment / environment of the wrong size / function value over a foreign environment / placeholder instruction"})
         ver, lock = v["verify"], v["lockstep"]
         if lock.startswith("LOCKSTEP crash"):
             ctx.violation("lockstep-crash:%s" % pid,
